@@ -202,6 +202,8 @@ def _as_surface(rng, tier, sym=None, ny=None, fem="tube", **kw):
                  original_wingbox_airfoil_t_over_c=0.12, strength_factor_for_upper_skin=float(rng.choice([1.0, 1.25])),
                  t_over_c_cp=np.array([0.12, 0.1]), spar_thickness_cp=rng.uniform(0.004, 0.01, size=3),
                  skin_thickness_cp=rng.uniform(0.005, 0.015, size=3), Wf_reserve=500.0, fuel_density=803.0)
+        if "distributed_fuel_weight" not in kw and rng.uniform() < 0.5:
+            s["distributed_fuel_weight"] = True          # fuel inertia relief inside the coupled loop (wingbox only)
     return gen.flagify(rng, s)
 
 
